@@ -99,6 +99,13 @@ def build(tokens, elems, group_reps):
     return stmts(0), stats
 
 
+# built-in aliases of ONE plain element (read from emmet/snippets/html.py by the harness author, checked at import by C01): the written
+# name stands for that element - also twice on one ancestor path
+ALIAS = {'bq': 'blockquote', 'fig': 'figure', 'figc': 'figcaption', 'cap': 'caption', 'fst': 'fieldset', 'btn': 'button', 'optg': 'optgroup', 'leg': 'legend',
+         'sect': 'section', 'art': 'article', 'hdr': 'header', 'ftr': 'footer', 'adr': 'address', 'dlg': 'dialog', 'str': 'strong', 'mn': 'main', 'tem': 'template',
+         'fset': 'fieldset', 'det': 'details', 'sum': 'summary', 'out': 'output'}
+
+
 def unroll(items, parent_name=None, inline=None):
     "expected output tree: list of (name, void, children); inline = the inlineElements option in effect (None: the default list)"
     inl = INLINE if inline is None else set(inline)
@@ -108,7 +115,7 @@ def unroll(items, parent_name=None, inline=None):
             if n.group:
                 res += unroll(n.ch, parent_name, inline)
             else:
-                name = n.name
+                name = ALIAS.get(n.name, n.name)
                 if name is None:
                     p = (parent_name or '').lower()
                     name = IMPLICIT.get(p, 'span' if p in inl else 'div')
